@@ -782,3 +782,123 @@ package memberlist
 //@   bytes
 //@   requires nn: t != nil && t.NodeAwareTransport != nil
 //@   at call NodeAwareTransport.WriteToAddress: assert only-adds-header [C15,C16]: t.label == "" && arg0 == buf || len(t.label) >= 1 && len(t.label) <= 255 && hdrOf(arg0, t.label, buf)
+
+// ---------------------------------------------------------------------
+// C17: keyring
+// ---------------------------------------------------------------------
+//@ ghost $kmap intmap      // installKeysLocked: position in the new ring -> index in `keys`
+//@ ghost $kinv intmap      // installKeysLocked: index in `keys` -> position in the new ring
+//@ pure validLen(n int) bool := n == 16 || n == 24 || n == 32
+//@ pure ringOK(ks [][]byte) bool := (forall i int :: 0 <= i && i < len(ks) ==> validLen(len(ks[i]))) && (forall i int, j int :: 0 <= i && i < j && j < len(ks) ==> !bytesEq(ks[i], ks[j]))
+
+//@ func (*Keyring).installKeysLocked(k, keys, primaryKey)
+//@   safety [C13,C17]
+//@   modular
+//@   requires nn: k != nil
+//@   at call append: set $kmap := upd($kmap, len(newKeys), rangeindex + 1)
+//@   at call append: set $kinv := upd($kinv, rangeindex + 1, len(newKeys))
+//@   loop #1 invariant head [C17]: len(newKeys) >= 1 && sliceEq(newKeys[0], primaryKey) && fresh(newKeys) && rangeindex < len(keys)
+//@   loop #1 invariant sound [C17]: forall a int :: 1 <= a && a < len(newKeys) ==> 0 <= $kmap[a] && $kmap[a] <= rangeindex && sliceEq(newKeys[a], keys[$kmap[a]]) && !bytesEq(keys[$kmap[a]], primaryKey)
+//@   loop #1 invariant mono [C17]: forall a int, b int :: 1 <= a && a < b && b < len(newKeys) ==> $kmap[a] < $kmap[b]
+//@   loop #1 invariant complete [C17]: forall j int :: 0 <= j && j <= rangeindex && j < len(keys) ==> bytesEq(keys[j], primaryKey) || (1 <= $kinv[j] && $kinv[j] < len(newKeys) && $kmap[$kinv[j]] == j)
+//@   loop #1 invariant keysframe [C17]: freshOnly("elems []byte")
+//@   ensures head [C17]: len(k.keys) >= 1 && sliceEq(k.keys[0], primaryKey) && fresh(k.keys)
+//@   ensures sound [C17]: forall a int :: 1 <= a && a < len(k.keys) ==> 0 <= $kmap[a] && $kmap[a] < len(keys) && sliceEq(k.keys[a], old(keys[$kmap[a]])) && !old(bytesEq(keys[$kmap[a]], primaryKey))
+//@   ensures mono [C17]: forall a int, b int :: 1 <= a && a < b && b < len(k.keys) ==> $kmap[a] < $kmap[b]
+//@   ensures complete [C17]: forall j int :: 0 <= j && j < len(keys) ==> old(bytesEq(keys[j], primaryKey)) || (1 <= $kinv[j] && $kinv[j] < len(k.keys) && $kmap[$kinv[j]] == j)
+//@   ensures frozen [C17]: freshOnly("elems []byte")
+//@   ensures complete-direct [C17]: forall j int :: 0 <= j && j < len(keys) && !old(bytesEq(keys[j], primaryKey)) ==> 1 <= $kinv[j] && $kinv[j] < len(k.keys) && sliceEq(k.keys[$kinv[j]], old(keys[j]))
+
+//@ pure inRing(ks [][]byte, q []byte) bool := exists i int :: 0 <= i && i < len(ks) && bytesEq(ks[i], q)
+
+// Keyring lock invariant K: valid lengths, pairwise distinct (by content); the primary is element 0 by representation.
+//@ lock Keyring.l recv k
+//@   protects Keyring.keys, elems []byte
+//@   inv K [C17]: ringOK(k.keys)
+
+//@ func ValidateKey(key)
+//@   safety [C13,C17]
+//@   ensures def [C17]: (result == nil) <==> validLen(len(key))
+
+//@ func (*Keyring).getPrimaryKeyLocked(k)
+//@   safety [C13,C17]
+//@   requires nn: k != nil
+//@   ensures def [C17]: ite(len(k.keys) > 0, sliceEq(result, k.keys[0]), isnil(result))
+
+//@ func (*Keyring).AddKey(k, key)
+//@   safety [C13,C17,C20]
+//@   monitor Keyring.l
+//@   requires nn: k != nil
+//@   loop #1 invariant absent [C17]: forall j int :: 0 <= j && j <= rangeindex && j < len(k.keys) ==> !bytesEq(k.keys[j], key)
+//@   ensures invalid [C17]: !validLen(len(key)) ==> result != nil
+//@   ensures ok [C17]: validLen(len(key)) ==> result == nil
+//@   ensures installed [C17]: result == nil ==> inRing(k.keys, key)
+//@   ensures keeps [C17]: result == nil && old(len(k.keys)) > 0 && !old(inRing(k.keys, key)) ==> forall i int :: 0 <= i && i < old(len(k.keys)) ==>
+//@                  bytesEq(k.keys[0], old(k.keys)[i]) || (1 <= $kinv[i] && $kinv[i] < len(k.keys) && bytesEq(k.keys[$kinv[i]], old(k.keys)[i]))
+//@   ensures noop [C17]: old(inRing(k.keys, key)) || result != nil ==> sliceEq(k.keys, old(k.keys))
+//@   ensures primary-stays [C17]: old(len(k.keys)) > 0 ==> len(k.keys) > 0 && bytesEq(k.keys[0], old(k.keys)[0])
+//@   ensures only-adds [C17]: result == nil && !old(inRing(k.keys, key)) ==> forall a int :: 1 <= a && a < len(k.keys) ==>
+//@                  bytesEq(k.keys[a], key) || (0 <= $kmap[a] && $kmap[a] < old(len(k.keys)) && bytesEq(k.keys[a], old(k.keys)[$kmap[a]]))
+//@   ensures frozen [C17]: forall i int :: 0 <= i && i < old(len(k.keys)) ==> sliceEq(old(k.keys)[i], old(k.keys[i]))
+
+//@ func (*Keyring).UseKey(k, key)
+//@   safety [C13,C17,C20]
+//@   monitor Keyring.l
+//@   requires nn: k != nil
+//@   loop #1 invariant absent [C17]: forall j int :: 0 <= j && j <= rangeindex && j < len(k.keys) ==> !bytesEq(key, k.keys[j])
+//@   ensures absent [C17]: !old(inRing(k.keys, key)) ==> result != nil && sliceEq(k.keys, old(k.keys))
+//@   ensures present [C17]: old(inRing(k.keys, key)) ==> result == nil && len(k.keys) > 0 && bytesEq(k.keys[0], key)
+//@   ensures keeps [C17]: old(inRing(k.keys, key)) ==> forall i int :: 0 <= i && i < old(len(k.keys)) ==>
+//@                  bytesEq(k.keys[0], old(k.keys)[i]) || (1 <= $kinv[i] && $kinv[i] < len(k.keys) && bytesEq(k.keys[$kinv[i]], old(k.keys)[i]))
+//@   ensures only-from-old [C17]: old(inRing(k.keys, key)) ==> forall a int :: 1 <= a && a < len(k.keys) ==>
+//@                  0 <= $kmap[a] && $kmap[a] < old(len(k.keys)) && bytesEq(k.keys[a], old(k.keys)[$kmap[a]])
+//@   ensures frozen [C17]: forall i int :: 0 <= i && i < old(len(k.keys)) ==> sliceEq(old(k.keys)[i], old(k.keys[i]))
+
+//@ func (*Keyring).GetKeys(k)
+//@   safety [C13,C17,C20]
+//@   monitor Keyring.l
+//@   requires nn: k != nil
+//@   ensures def [C17]: sliceEq(result, k.keys) && ringOK(result)
+
+//@ func (*Keyring).GetPrimaryKey(k)
+//@   safety [C13,C17,C20]
+//@   monitor Keyring.l
+//@   requires nn: k != nil
+//@   ensures def [C17]: ite(len(k.keys) > 0, sliceEq(result, k.keys[0]), isnil(result))
+
+//@ func (*Keyring).RemoveKey(k, key)
+//@   safety [C13,C17,C20]
+//@   monitor Keyring.l
+//@   requires nn: k != nil
+//@   loop #1 invariant absent [C17]: forall j int :: 0 <= j && j <= rangeindex && j < old(len(k.keys)) ==> !bytesEq(key, old(k.keys)[j])
+//@   loop #1 invariant untouched [C17]: sliceEq(k.keys, old(k.keys)) && freshOnly("elems []byte")
+//@   at call (*Keyring).installKeysLocked: lemma shape [C17]: len(keys) == old(len(k.keys)) - 1 && rangeindex + 1 >= 1 && bytesEq(key, old(k.keys)[rangeindex + 1])
+//@                  && (forall x int :: 0 <= x && x < len(keys) ==> sliceEq(keys[x], old(k.keys)[ite(x < rangeindex + 1, x, x + 1)]))
+//@   ensures primary [C17]: old(len(k.keys)) > 0 && old(bytesEq(key, k.keys[0])) ==> result != nil && sliceEq(k.keys, old(k.keys))
+//@   ensures frozen [C17]: forall i int :: 0 <= i && i < old(len(k.keys)) ==> sliceEq(old(k.keys)[i], old(k.keys[i]))
+//@   ensures removed [C17]: result == nil ==> !inRing(k.keys, key)
+
+//@ func NewKeyring(keys, primaryKey)
+//@   safety [C13,C17,C20]
+
+// C17 rotation (a lemma about the keyring contracts, not about code): nodes are integers; hasOld/hasNew say which
+// keys a node has installed, prim says which one is its primary (0 = old key, 1 = new key). Senders seal with their
+// primary (rawSendMsgPacket/encryptLocalState: seal-with-primary), receivers try every installed key (all-installed-keys).
+// connected(prim, hasOld, hasNew): every node's primary is installed on every node.
+//@ pure connected(prim intmap, hasOld intmap, hasNew intmap) bool := forall i int, j int :: (prim[i] == 0 ==> hasOld[j] == 1) && (prim[i] == 1 ==> hasNew[j] == 1)
+//@ pure prims01(prim intmap) bool := forall i int :: prim[i] == 0 || prim[i] == 1
+//@ lemma rotation-phase1-install-new [C17]
+//@   vars prim intmap, hasOld intmap, hasNew intmap, hasNew2 intmap, n int
+//@   hyp prims01(prim) && (forall x int :: prim[x] == 0 && hasOld[x] == 1)
+//@   hyp hasNew2[n] == 1 && (forall x int :: x != n ==> hasNew2[x] == hasNew[x])
+//@   concl connected(prim, hasOld, hasNew2)
+//@ lemma rotation-phase2-use-new [C17]
+//@   vars prim intmap, prim2 intmap, hasOld intmap, hasNew intmap, n int
+//@   hyp prims01(prim) && (forall x int :: hasOld[x] == 1 && hasNew[x] == 1)
+//@   hyp prim2[n] == 1 && (forall x int :: x != n ==> prim2[x] == prim[x])
+//@   concl connected(prim2, hasOld, hasNew) && prims01(prim2)
+//@ lemma rotation-phase3-remove-old [C17]
+//@   vars prim intmap, hasOld intmap, hasOld2 intmap, hasNew intmap, n int
+//@   hyp (forall x int :: prim[x] == 1 && hasNew[x] == 1)
+//@   hyp hasOld2[n] == 0 && (forall x int :: x != n ==> hasOld2[x] == hasOld[x])
+//@   concl connected(prim, hasOld2, hasNew)
